@@ -27,7 +27,7 @@ structure POp where
 inductive PErr | malformedPush | requiresTx | internal
   deriving Repr, DecidableEq
 
-def isCondOpen (b : UInt8) : Bool := b = 0x63 || b = 0x64 || b = 0x65 || b = 0x66  -- IF NOTIF VERIF VERNOTIF
+def isCondOpen (b : UInt8) : Bool := b = 0x63 || b = 0x64  -- IF NOTIF (VERIF / VERNOTIF open nothing: they are reserved words, skipped when not executed)
 def opENDIF : UInt8 := 0x68
 
 /-- opcodes for which ParsedOpcode.RequiresTx is true -/
